@@ -178,12 +178,16 @@ ApplyEvent(s, ev, env) ==
          Res([s EXCEPT !.trading = ev.to],
              IF s.trading = "Enabled" /\ ev.to = "Disabled" THEN <<Plain("OnTradingDisabled", -1)>> ELSE <<>>,
              0, FALSE, {})
-    [] ev.a \in {"SendOpens", "SendCancels", "CancelOrders", "ClosePositions"} ->
+    \* ClosePositionsCF: the close-positions command handled by a CUSTOM close strategy (the trait
+    \* allows cancels): it first cancels the resting orders of the matching instruments, then closes
+    \* with the default market orders.  C19 speaks about the default strategy only (ScopeA); C03's
+    \* delivery / in-flight rules hold for whatever the strategy asks for.
+    [] ev.a \in {"SendOpens", "SendCancels", "CancelOrders", "ClosePositions", "ClosePositionsCF"} ->
          LET C == CASE ev.a = "SendCancels"  -> ToSet(ev.reqs)
-                    [] ev.a = "CancelOrders" -> CancelScope(s, ev.filter)
+                    [] ev.a \in {"CancelOrders", "ClosePositionsCF"} -> CancelScope(s, ev.filter)
                     [] OTHER -> {}
              O == CASE ev.a = "SendOpens"      -> ToSet(ev.reqs)
-                    [] ev.a = "ClosePositions" -> CloseScope(s, ev.filter)
+                    [] ev.a \in {"ClosePositions", "ClosePositionsCF"} -> CloseScope(s, ev.filter)
                     [] OTHER -> {}
              b == Batch(s, env, C, O, "Commanded", {}, {})
          IN Res(b.st, <<b.out>>, b.nerr, b.nerr > 0, b.sent)
@@ -233,7 +237,7 @@ Process(ev, env) ==
      /\ dl' = r.dl
      /\ last' = [ev |-> ev, env |-> env]
 
-IsCmd(a) == a \in {"SendOpens", "SendCancels", "CancelOrders", "ClosePositions"}
+IsCmd(a) == a \in {"SendOpens", "SendCancels", "CancelOrders", "ClosePositions", "ClosePositionsCF"}
 
 MarketItem   == ~tick.terminal /\ \E ev \in {x \in EVENTS : x.a \in {"Market", "MarketNoPrice"}}, env \in ENVS : Process(ev, env)
 Disconnects  == ~tick.terminal /\ \E ev \in {x \in EVENTS : x.a \in {"MarketReconnecting", "AccountReconnecting"}}, env \in ENVS : Process(ev, env)
